@@ -311,6 +311,7 @@ def run(ctx):
         "schedules_with_lock_contention": overlapped, "serial_candidates_evaluated": len(hist),
         "traces_validated_against_impl": len(meta)})
     session_threads_part(ctx)
+    handoff_part(ctx)
 
 
 def session_threads_case(seed):
@@ -407,6 +408,149 @@ def session_threads_part(ctx):
     ctx.coverage["evaluations"] = ctx.coverage.get("evaluations", 0) + n
 
 
+# ------------------------------------------------------------------ strict hand-offs between session threads
+def handoff_case(seed):
+    """Two (or three) client threads on ONE engine take turns in a fixed global order: a thread READS an object, another
+    thread CHANGES it (Activate, Revoke, ModifyAttribute, Destroy), the first thread looks again and acts on what it
+    sees.  Every answer and the final store must be exactly those of the same requests served from a single thread in
+    that global order on a fresh engine (whatever a thread keeps between its requests - a session of its own, cached
+    rows - must not show).  Implementation against implementation; no model involved."""
+    import impl_engine
+    from gen_engine import hexof
+    r = random.Random(seed)
+    nthreads = r.choice([2, 2, 3])
+
+    def ln(item, ver=14):
+        item = dict({"bid": None, "crypto": None}, **item)
+        return {"cmd": "req", "now": 1000, "id": {"user": "alice", "groups": None},
+                "req": {"version": ver, "ts": None, "async": None, "bopt": None, "maxsize": None, "items": [item]}}
+
+    def A(name, kind, v, index=None, **kw):
+        d = {"k": kind, "v": v}
+        d.update(kw)
+        return {"name": name, "index": index, "value": d}
+    attrs = [A("Cryptographic Algorithm", "enum", 3), A("Cryptographic Length", "int", 128),
+             A("Cryptographic Usage Mask", "int", 12), A("Name", "name", "k0", 0, t=1)]
+    prefix = [ln({"op": "create", "otype": 2, "tmpl": {"tnames": 0, "attrs": attrs}, "crypto": {"k": "ok", "t": hexof(16, rnd=r)}})
+              for _ in range(3)]
+    reads = [lambda u: {"op": "getAttributes", "uid": u, "names": []},
+             lambda u: {"op": "get", "uid": u, "format": None, "compression": False, "wrap": None},
+             lambda u: {"op": "getAttributeList", "uid": u},
+             lambda u: {"op": "locate", "max": None, "offset": None, "attrs": [A("State", "enum", 1)]}]
+    writes = [lambda u: {"op": "activate", "uid": u},
+              lambda u: {"op": "revoke", "uid": u, "code": r.choice([1, 2])},
+              lambda u: {"op": "modifyAttribute", "uid": u, "attr": A("Name", "name", "renamed%d" % r.randrange(99), 0, t=1),
+                         "current": None, "new": None},
+              lambda u: {"op": "destroy", "uid": u}]
+    order = []          # [(thread, line)]
+    for _ in range(r.choice([4, 5, 6])):
+        u = str(r.choice([1, 2, 3]))
+        a, b = r.sample(range(nthreads), 2)
+        order.append((a, ln(r.choice(reads)(u))))
+        order.append((b, ln(r.choice(writes)(u))))
+        order.append((a, ln(r.choice(reads)(u))))
+        order.append((a, ln(r.choice(writes + reads)(u))))
+
+    def serve(eng, line):
+        msg = impl_engine.build_request(line["req"])
+        try:
+            resp, _, ver = eng.process_request(msg, (line["id"]["user"], None))
+        except impl_engine.exceptions.KmipError as e:
+            return {"rejected": e.reason.value}
+        except Exception as e:
+            return {"exception": "%s: %s" % (type(e).__name__, str(e)[:200])}
+        res = []
+        for bi in resp.batch_items:
+            x = {"op": bi.operation.value.value}
+            if bi.result_status.value == impl_engine.enums.ResultStatus.SUCCESS:
+                x["status"] = "ok"
+                x["data"] = impl_engine.data_of(bi.operation.value, bi.response_payload)
+            else:
+                x["status"] = "fail"
+                x["reason"] = bi.result_reason.value.value if bi.result_reason else None
+                x["msg"] = bi.result_message.value if bi.result_message else None
+            res.append(x)
+        return {"results": res}
+
+    def run(threaded):
+        E = impl_engine.ImplEngine()
+        try:
+            for p in prefix:
+                E.handle(p)
+            eng = E.engine
+            outs = [None] * len(order)
+            if not threaded:
+                for k, (t, line) in enumerate(order):
+                    outs[k] = serve(eng, line)
+            else:
+                turn = [0]
+                cv = threading.Condition()
+                errs = []
+
+                def worker(ti):
+                    try:
+                        for k, (t, line) in enumerate(order):
+                            if t != ti:
+                                continue
+                            with cv:
+                                while turn[0] != k:
+                                    cv.wait(10)
+                                    if errs:
+                                        return
+                            outs[k] = serve(eng, line)
+                            with cv:
+                                turn[0] = k + 1
+                                cv.notify_all()
+                    except Exception as e:
+                        errs.append(repr(e))
+                        with cv:
+                            cv.notify_all()
+                ths = [threading.Thread(target=worker, args=(i,), name="H%d" % i) for i in range(nthreads)]
+                for th in ths:
+                    th.start()
+                for th in ths:
+                    th.join(60)
+                if errs or any(th.is_alive() for th in ths):
+                    return None, None, errs or ["a thread did not finish"]
+            return outs, E.dump(), []
+        finally:
+            E.close()
+    s_outs, s_dump, _ = run(False)
+    t_outs, t_dump, errs = run(True)
+    fails = []
+    if errs:
+        return [("c10:handoff-thread-error", "threads did not finish: %s" % errs[:2])], len(order)
+    for k, ((t, line), a, b) in enumerate(zip(order, t_outs, s_outs)):
+        if diff_engine.obs_out(a) != diff_engine.obs_out(b):
+            it = line["req"]["items"][0]
+            fails.append(("c10:answer-differs-from-serial-order:%s" % it["op"],
+                          "step %d (thread %d, %s %s): served by its own thread in turn it is answered %s; the same global "
+                          "order from ONE thread gives %s; the steps before it: %s"
+                          % (k, t, it["op"], it.get("uid"), json.dumps(diff_engine.obs_out(a))[:300],
+                             json.dumps(diff_engine.obs_out(b))[:300],
+                             [(tt, l["req"]["items"][0]["op"], l["req"]["items"][0].get("uid")) for tt, l in order[max(0, k - 4):k]])))
+            break
+    if not fails and (t_dump or {}).get("objs") != (s_dump or {}).get("objs"):
+        fails.append(("c10:final-store-differs-from-serial-order", "the final store of the threaded run differs from the serial one"))
+    return fails, len(order)
+
+
+def handoff_part(ctx):
+    import multiprocessing
+    n = 40 if ctx.tier == "quick" else 800
+    seeds = [ctx.seed * 6007 + 5000 + i for i in range(n)]
+    with multiprocessing.get_context("fork").Pool(8) as pool:
+        res = pool.map(handoff_case, seeds)
+    steps = 0
+    for sd, (fails, k) in zip(seeds, res):
+        steps += k
+        for sig, what in fails:
+            ctx.report(sig, what, {"kind": "handoff", "seed": sd})
+    ctx.coverage["handoff_schedules"] = n
+    ctx.coverage["handoff_steps"] = steps
+    ctx.coverage["evaluations"] = ctx.coverage.get("evaluations", 0) + steps
+
+
 def search(ctx, broken):
     ctx.tier = "thorough" if ctx.tier == "thorough" else "quick"
     run(ctx)
@@ -414,6 +558,14 @@ def search(ctx, broken):
 
 def replay(ctx, rep):
     r = rep.get("replay", rep)
+    if r.get("kind") == "handoff":
+        bad = 0
+        for _ in range(5):
+            fails, _k = handoff_case(r["seed"])
+            for sig, what in fails[:1]:
+                print("  %s: %s" % (sig, what[:400]))
+            bad += 1 if fails else 0
+        return bad == 0
     if r.get("kind") == "session-threads":
         bad = 0
         for _ in range(10):
